@@ -332,7 +332,18 @@ def tasks(tier, seed):
 def replay(case):
     if case['kind'] == 'list':
         config = case['config'] or PACKAGED
+        # a list case found in a long run may depend on what other instances did earlier in the same process (that is the
+        # second sentence of the property), so the replay first lets a writer with a *different* configuration work
+        other = {'3': {'field_type': 'FIXED', 'field_length': 6}, '62': {'field_type': 'LLLVAR', 'field_length': 0, 'field_processor': 'PDS'}}
+        prime = io.BytesIO()
+        with mciipm.IpmWriter(prime, iso_config=other if case['config'] is None else None) as w:
+            w.write({'MTI': '1240', 'DE3': '123456', 'PDS0001': 'x'})
         return check_list(config, case['config'] is not None, case['codec'], list(case['msgs']), case['blocked'], case['api'])
+    first_cfg = next((op[4] for op in case['ops'] if op[0] == 'new_writer'), None)
+    other = {'3': {'field_type': 'FIXED', 'field_length': 6}, '62': {'field_type': 'LLLVAR', 'field_length': 0, 'field_processor': 'PDS'}}
+    prime = io.BytesIO()
+    with mciipm.IpmWriter(prime, iso_config=other if first_cfg is None else None) as w:   # an instance active earlier in the process
+        w.write({'MTI': '1240', 'DE3': '123456', 'PDS0001': 'x'})
     world = World()
     for op in case['ops']:
         res = world.apply(tuple(op))
